@@ -570,11 +570,11 @@ func (g *j5Gen) randomBundle() *jBundle {
 			svc := &jService{Name: nextType(), BasePath: "/" + strings.ReplaceAll(pkg, ".", "/")}
 			for mi := 0; mi < 1+g.rng.Intn(3); mi++ {
 				hm := []string{"GET", "POST", "PUT", "PATCH", "DELETE"}[g.rng.Intn(5)]
-				m := &jMethod{Name: fmt.Sprintf("%s%s", []string{"Get", "Make", "Put", "Patch", "Drop"}[mi%5], nextType()), HTTPMethod: hm, Path: "/things", HasRes: g.rng.Intn(5) > 0}
+				m := &jMethod{Name: fmt.Sprintf("%s%s", []string{"Get", "Make", "Put", "Patch", "Drop"}[mi%5], nextType()), HTTPMethod: hm, Path: fmt.Sprintf("/things%d", mi), HasRes: g.rng.Intn(5) > 0} // one route per method
 				m.Req = g.fields(k, g.rng.Intn(4), "")
 				if g.rng.Intn(2) == 0 {
 					m.Req = append([]*jF{fld("thingId", tKeyF("id62"))}, m.Req...)
-					m.Path = "/things/:thingId"
+					m.Path = fmt.Sprintf("/things%d/:thingId", mi)
 				}
 				if m.HasRes {
 					m.Res = g.fields(k, g.rng.Intn(4), "")
